@@ -345,9 +345,16 @@ func checkGraphOrder(r *ev.Run, g []kind, depths []int, rev bool) {
 				select {
 				case o = <-done:
 				case <-time.After(60 * time.Second):
-					viol("Stat/Open/ReadDir", "resolution-does-not-terminate", "no answer within 60 s")
-					r.Abort() // the stuck query keeps a CPU busy: schedule nothing more next to it
-					return
+					// a stalled machine is not a hang: give the very same query five more minutes before
+					// calling it non-termination (a real loop never answers, whatever the load)
+					select {
+					case o = <-done:
+						r.Set("slow_query_answered_after_60s", true)
+					case <-time.After(5 * time.Minute):
+						viol("Stat/Open/ReadDir", "resolution-does-not-terminate", "no answer within 6 minutes")
+						r.Abort() // the stuck query keeps a CPU busy: schedule nothing more next to it
+						return
+					}
 				}
 				if want.class == "via" {
 					// termination was established by the watchdog; the only file that can be right is the
